@@ -331,8 +331,8 @@ func genC14(r *rand.Rand, n int, emit func(string)) {
 			doc["publicKey"] = pick(r, []interface{}{M{}, "x", []interface{}{}, nil})
 			label = "doc/publicKey-shape"
 		case 4:
-			doc["id"] = ""
-			label = "doc/id-empty"
+			doc["id"] = pick(r, []interface{}{"", 7, nil, []interface{}{"x"}, M{"a": 1}, false})
+			label = "doc/with-id"
 		}
 		b, _ := json.Marshal(doc)
 		emit(proto.Line("patchrt", M{"doc": proto.Hex(b), "uri": UriTable(deepCopy(doc)), "label": label}))
